@@ -170,6 +170,7 @@ def run(model: Model, rep: Report) -> None:
         except ValueError:
             pass
     r5.check(ok, site(uv), uv.qualname, "xi >= 0 -> xi ; otherwise xi + 2**n_bits", why=why)
+    _decipher_walk(model, rep)
 
 
 def _constants(model: Model, rep: Report, spec: dict, fo: Folder) -> None:
@@ -250,3 +251,41 @@ def _constants(model: Model, rep: Report, spec: dict, fo: Folder) -> None:
     r3.check(all(x in s9 for x in ("self.o_hash=self.o[:32]", "self.o_validation_salt=self.o[32:40]", "self.o_key_salt=self.o[40:]", "self.u_hash=self.u[:32]", "self.u_validation_salt=self.u[32:40]", "self.u_key_salt=self.u[40:]")), site(ip5), ip5.qualname, "O and U split into hash (32), validation salt (8), key salt (8)", why="slicing changed")
     np_ = model.func(H + "V5._normalize_password")
     r3.check("password.encode('utf-8')[:127]" in unparse(np_.node) and "saslprep(password)" in unparse(np_.node), site(np_), np_.qualname, "revision 6 password: SASLprep, UTF-8, at most 127 bytes", why="changed")
+
+
+def _decipher_walk(model: Model, rep: Report) -> None:
+    """C10-R6: every string of a parsed object is deciphered, at any nesting depth - the walk recurses into every list
+    element and every dictionary value without filtering, and calls the handler for every non-empty byte string."""
+    r6 = rep.rule("C10-R6", "NORMFORM", "decipher_all: bytes -> handler (empty strings unchanged); lists and dictionaries are walked completely (no element is skipped by type)", 3)
+    f = model.func("pdfminer.pdftypes.decipher_all")
+    x = f.params[-1]
+    arms = {}
+    for n in walk_no_nested(f.node):
+        if isinstance(n, ast.If) and isinstance(n.test, ast.Call) and (dotted(n.test.func) or "") == "isinstance" and unparse(n.test.args[0]) == x:
+            arms[unparse(n.test.args[1])] = n
+    b = arms.get("bytes")
+    okb = b is not None and "".join(unparse(ast.Module(body=b.body, type_ignores=[])).split()) == f"iflen({x})==0:return{x}returndecipher(objid,genno,{x})"
+    r6.check(okb, site(f, b) if b is not None else site(f), f.qualname, "a non-empty byte string is passed to the handler with the object's number and generation", why="bytes branch changed")
+    li = arms.get("list")
+    okl = False
+    why = "list branch not found"
+    if li is not None:
+        comps = [c for c in walk_no_nested(li) if isinstance(c, ast.ListComp)]
+        fors = [c for c in li.body if isinstance(c, ast.For)]
+        if len(comps) == 1:
+            c = comps[0]
+            g0 = c.generators[0]
+            okl = len(c.generators) == 1 and not g0.ifs and unparse(g0.iter) == x and isinstance(c.elt, ast.Call) and (dotted(c.elt.func) or "") == "decipher_all" and unparse(c.elt.args[-1]) == unparse(g0.target)
+            why = f"list elements are mapped by `{unparse(c.elt)[:70]}`" + (" under a filter" if g0.ifs else "")
+        elif fors:
+            okl = False
+            why = "list branch is a statement loop (re-derive the rule)"
+    r6.check(okl, site(f, li) if li is not None else site(f), f.qualname, "every element of a list is walked (no type filter, no condition)", why=why + ": a string nested in an array inside an array (choice-field options, name-tree pairs) would stay encrypted")
+    di = arms.get("dict")
+    okd = False
+    if di is not None:
+        loops = [c for c in di.body if isinstance(c, ast.For)]
+        if len(loops) == 1 and "".join(unparse(loops[0].iter).split()) == f"{x}.items()" and len(loops[0].body) == 1:
+            st = loops[0].body[0]
+            okd = isinstance(st, ast.Assign) and isinstance(st.value, ast.Call) and (dotted(st.value.func) or "") == "decipher_all" and isinstance(st.targets[0], ast.Subscript) and unparse(st.targets[0].value) == x
+    r6.check(okd, site(f, di) if di is not None else site(f), f.qualname, "every value of a dictionary is walked and stored back under its key", why="dict branch changed")
